@@ -293,7 +293,15 @@ def _partial_eq(m, args, ci):
     if b is not None:
         r = m.call_body(b, args)
         return r
-    r = value_eq(m, args[0], args[1])
+    if ci.name.endswith('::ne'):
+        # default method: !eq; use the crate's (derived) eq when there is one
+        b = m.prog.resolve_fn(ci.raw[:-2] + 'eq')
+        if b is not None:
+            return sym.not_(m.call_body(b, args))
+    try:
+        r = value_eq(m, args[0], args[1])
+    except Unsupported as e:
+        raise Unsupported('%s; operands %r vs %r' % (e, deref_val(args[0]), deref_val(args[1])))
     return r if ci.name.endswith('::eq') else sym.not_(r)
 
 @I.rx(r'^(core|std)::cmp::impls::<impl PartialEq<&B> for &A>::(eq|ne)$')
@@ -752,7 +760,7 @@ def utf8_valid(m, xs):
         return False
     return True
 
-@I.rx(r'^(core|std)::str::from_utf8$|^(core::str::converts::)from_utf8$')
+@I.rx(r'(^|::)from_utf8$')
 def _from_utf8(m, args, ci):
     s, a, b = seq_of(args[0])
     if s.tag is not None:
@@ -931,3 +939,129 @@ def _range_next(m, args, ci):
     it = as_iter(m, args[0])
     x = it.next(m)
     return none() if x is None else some(x)
+
+# ----------------------------------------------------------------------------
+# HashMap as an association list; key equality is decided by the solver
+# ----------------------------------------------------------------------------
+class HMap:
+    def __init__(self):
+        self.entries = []       # [key value, Cell(value)]
+    def find(self, m, key, label='hashmap.key='):
+        key = deref_val(key) if isinstance(key, Ref) else key
+        for i, (k, cell) in enumerate(self.entries):
+            if m.branch(value_eq(m, k, key), label):
+                return i
+        return None
+    def on_drop(self, m):
+        for k, cell in self.entries:
+            m.drop_value(cell.v)
+
+@I.rx(r'(^|::)HashMap::new$|^<(std::collections::)?HashMap as Default>::default$')
+def _hm_new(m, args, ci):
+    return HMap()
+
+@I.rx(r'(^|::)HashMap::(get|get_mut)$')
+def _hm_get(m, args, ci):
+    hm = deref_val(args[0])
+    i = hm.find(m, args[1])
+    return none() if i is None else some(Ref(hm.entries[i][1], 'v'))
+
+@I.rx(r'(^|::)HashMap::contains_key$')
+def _hm_contains(m, args, ci):
+    hm = deref_val(args[0])
+    return hm.find(m, args[1]) is not None
+
+@I.rx(r'(^|::)HashMap::remove$')
+def _hm_remove(m, args, ci):
+    hm = deref_val(args[0])
+    i = hm.find(m, args[1])
+    if i is None:
+        return none()
+    k, cell = hm.entries.pop(i)
+    return some(cell.v)
+
+@I.rx(r'(^|::)HashMap::insert$')
+def _hm_insert(m, args, ci):
+    hm = deref_val(args[0])
+    i = hm.find(m, args[1])
+    if i is None:
+        hm.entries.append([args[1], Cell(args[2])])
+        return none()
+    old = hm.entries[i][1].v
+    hm.entries[i][1].v = args[2]
+    return some(old)
+
+@I.rx(r'(^|::)HashMap::(len|is_empty)$')
+def _hm_len(m, args, ci):
+    hm = deref_val(args[0])
+    return len(hm.entries) if ci.name.endswith('len') else len(hm.entries) == 0
+
+class HEntry:
+    def __init__(self, hm, key, idx):
+        self.hm = hm
+        self.key = key
+        self.idx = idx
+
+@I.rx(r'(^|::)HashMap::entry$')
+def _hm_entry(m, args, ci):
+    hm = deref_val(args[0])
+    i = hm.find(m, args[1])
+    return HEntry(hm, args[1], i)
+
+@I.rx(r'(^|::)Entry::or_insert_with$')
+def _entry_or_insert_with(m, args, ci):
+    e = args[0]
+    if e.idx is None:
+        v = m.call_closure(args[1], [])
+        e.hm.entries.append([e.key, Cell(v)])
+        e.idx = len(e.hm.entries) - 1
+        m.event('hashmap_insert', _show_key(e.key))
+    return Ref(e.hm.entries[e.idx][1], 'v')
+
+@I.rx(r'(^|::)Entry::or_insert$')
+def _entry_or_insert(m, args, ci):
+    e = args[0]
+    if e.idx is None:
+        e.hm.entries.append([e.key, Cell(args[1])])
+        e.idx = len(e.hm.entries) - 1
+    return Ref(e.hm.entries[e.idx][1], 'v')
+
+def _show_key(k):
+    if isinstance(k, Adt) and k.fields:
+        v = k.fields.get(0)
+        return sym.show(v) if isinstance(v, T) else repr(v)
+    return repr(k)
+
+# ----------------------------------------------------------------------------
+# serde_json as a token contract: to_string freezes a value, from_str thaws it for the same type
+# ----------------------------------------------------------------------------
+class JsonTok:
+    def __init__(self, value, ty):
+        self.value = value
+        self.ty = ty
+    def __repr__(self):
+        return 'json<%s>%r' % (self.ty, self.value)
+    def __eq__(self, o):
+        return isinstance(o, JsonTok) and repr(self) == repr(o)
+    def __hash__(self):
+        return hash(repr(self))
+
+@I.rx(r'^serde_json::to_string$|^serde_json::ser::to_string$')
+def _json_to_string(m, args, ci):
+    v = deref_val(args[0])
+    ty = last_seg(v.ty) if isinstance(v, Adt) else type(v).__name__
+    return ok(Seq([], 'str', tag=JsonTok(clone_value(m, v), ty)))
+
+@I.rx(r'^serde_json::from_str$|^serde_json::de::from_str$')
+def _json_from_str(m, args, ci):
+    s, a, b = seq_of(args[0])
+    g = ci.generic_args()
+    want = last_seg(type_head(g[-1])) if g else None
+    dty = ci.dest_type(m) or ''
+    if want is None or want.startswith("'"):
+        mm = re.match(r'^(?:std::result::)?Result<(.*), serde_json::Error>$', dty)
+        want = last_seg(type_head(mm.group(1))) if mm else None
+    tok = s.tag
+    if isinstance(tok, JsonTok) and (want is None or tok.ty == want):
+        return ok(clone_value(m, tok.value))
+    return err(Opaque('serde_json::Error', 'token %r is not a %s' % (tok, want)))
